@@ -1020,7 +1020,7 @@ func (s *SQLiteStore) dequeueOnce(req DequeueRequest, batch int, leaseTTL time.D
 	if now.IsZero() {
 		now = s.now()
 	}
-	leaseUntil := now.Add(leaseTTL)
+	leaseUntil := addSaturating(now, leaseTTL)
 
 	ctx := context.Background()
 	conn, err := s.db.Conn(ctx)
@@ -1421,13 +1421,24 @@ WHERE id IN (`, nil, itemIDs)
 	})
 }
 
+// addSaturating returns t+d, but never an instant beyond what the int64
+// nanosecond columns can hold (year 2262): a lease TTL or nack delay of
+// centuries must not wrap around into the past.
+func addSaturating(t time.Time, d time.Duration) time.Time {
+	last := time.Unix(0, math.MaxInt64)
+	if d > 0 && last.Sub(t) < d {
+		return last
+	}
+	return t.Add(d)
+}
+
 func (s *SQLiteStore) Nack(leaseID string, delay time.Duration) error {
 	if delay < 0 {
 		delay = 0
 	}
 
 	err := s.withLeaseMutation(leaseID, func(ctx context.Context, conn *sql.Conn, now time.Time, leaseID string) (int64, error) {
-		nextRunAt := now.Add(delay)
+		nextRunAt := addSaturating(now, delay)
 		return execRowsAffectedTx(ctx, conn, `
 UPDATE queue_items
 SET state = ?, lease_id = NULL, lease_until = NULL, next_run_at = ?, dead_reason = NULL
@@ -1455,7 +1466,7 @@ func (s *SQLiteStore) NackBatch(leaseIDs []string, delay time.Duration) (LeaseBa
 	}
 
 	res, err := s.withLeaseBatch(leaseIDs, func(ctx context.Context, conn *sql.Conn, now time.Time, itemIDs []string) error {
-		nextRunAt := now.Add(delay)
+		nextRunAt := addSaturating(now, delay)
 		return s.execByItemIDsTx(ctx, conn, `
 UPDATE queue_items
 SET state = ?, lease_id = NULL, lease_until = NULL, next_run_at = ?, dead_reason = NULL
@@ -1479,7 +1490,7 @@ func (s *SQLiteStore) Extend(leaseID string, extendBy time.Duration) error {
 		extendNanos := extendBy.Nanoseconds()
 		return execRowsAffectedTx(ctx, conn, `
 UPDATE queue_items
-SET lease_until = lease_until + ?, next_run_at = lease_until + ?
+SET lease_until = min(lease_until + ?, 9223372036854775807), next_run_at = min(lease_until + ?, 9223372036854775807)
 WHERE lease_id = ?
   AND state = ?
   AND lease_until IS NOT NULL
